@@ -10,7 +10,7 @@ def run(ctx):
     quick = ctx.tier == "quick"
     rng = random.Random(ctx.seed)
     ctx.cov["rule"] = ("cases = (history, flavour, configuration): histories = TLC transition cover of the abstract multiplicity state (2 keys, multiplicity <= 2, every call of the "
-                       "script alphabet from every state), TLC random walks with fill / drain phases over 8 keys (40-120 calls) and seeded long fill / drain histories (150-5000 "
+                       "script alphabet from every state), TLC random walks with fill / drain phases over 8 keys (40-120 calls) and seeded long fill / drain histories (150-3000 "
                        "calls over 14-40 keys with bulk loads at capacity multiples, copies, assignments, swaps, comparisons); every history runs on set, multiset, map, multimap "
                        "x 10 configurations (leaf slots 4-16 x inner slots 4-16 chosen independently, linear / binary node search, less / greater, int / tracked elements); "
                        "after every call: contents of both containers, reverse walk, size, and find / count / lower_bound / upper_bound / exists / equal_range (const and "
